@@ -79,6 +79,8 @@ impl WalCleaner {
                                 let path = entry.path();
                                 match std::fs::remove_file(&path) {
                                     Ok(_) => {
+                                        #[cfg(sneldb_verif)]
+                                        crate::verif_hooks::vpd("walc_deleted", &id.to_string());
                                         info!(
                                             target: "wal_cleaner::cleanup_up_to",
                                             shard_id = self.shard_id,
